@@ -54,6 +54,7 @@ func (e *Engine) Run(fn *ssa.Function) *Result {
 
 func (e *Engine) runPath(st *State) {
 	e.res.Paths++
+	e.curTimerFires = st.TimerFired
 	defer func() {
 		for l := range st.Covers {
 			e.res.Covers[l]++
